@@ -25,21 +25,36 @@ HB_MODULE = 'Librfn.Props.C07HB'
 
 
 def build_tracer(ctx, fallback=False):
-    """fallback=True: the library's own pre-C11 configuration (-D__STDC_NO_ATOMICS__, include/librfn/atomic.h)"""
+    """fallback=True: the library's own pre-C11 configuration (-D__STDC_NO_ATOMICS__, include/librfn/atomic.h).
+    The tracer names individual fields of the library's structures (cosmetic: locations print as `mq.receivep` instead of
+    `mq+13`); when that no longer compiles (a field was renamed, removed, or became a bit-field) it is rebuilt without
+    the field names - the accesses are traced and judged exactly as before."""
+    try:
+        return build_tracer1(ctx, fallback, [])
+    except vlib.Unbuildable as e:
+        exe = build_tracer1(ctx, fallback, ['-DVERIF_BLACKBOX'])
+        msg = 'race tracer rebuilt without field names (the structures changed): ' + ' '.join(str(e).split())[-300:]
+        if msg not in ctx.notes:
+            ctx.notes.append(msg)
+        ctx.cov['harness_public_interface_only'] = msg
+        return exe
+
+
+def build_tracer1(ctx, fallback, bb):
     R, H = vlib.REPO, os.path.join(vlib.VERIF, 'harness')
     objs = []
-    cfg = ['-D__STDC_NO_ATOMICS__'] if fallback else []
+    cfg = (['-D__STDC_NO_ATOMICS__'] if fallback else []) + bb
     tag = 'fb' if fallback else ''
     for name, src, extra in (('ringbuf', R + '/librfn/ringbuf.c', []), ('messageq', R + '/librfn/messageq.c', []), ('list', R + '/librfn/list.c', []),
                              ('fibre', H + '/h_race_fibre.c', ['-I' + R + '/librfn'])):
         o = os.path.join(ctx.tmp, f'tsan{tag}_{name}.o')
         rc, out, err = vlib.sh(['gcc', '-c', os.environ.get('VERIF_OPT', '-O0'), '-g', '-fsanitize=thread', '-I' + R + '/include'] + cfg + extra + [src, '-o', o], timeout=300)
         if rc != 0:
-            raise vlib.Infra(f'cannot compile {src} with access tracing: ' + (out + err)[-800:])
+            raise vlib.Unbuildable(f'cannot compile {src} with access tracing: ' + (out + err)[-800:])
         objs.append(o)
     exe, log = ctx.cc('h_race' + tag, [H + '/h_race.c'] + objs + [R + '/librfn/util.c', R + '/librfn/posix/time_posix.c'], ['-lpthread'] + cfg, san=False)
     if not exe:
-        raise vlib.Infra('race tracer does not link: ' + log[-1500:])
+        raise vlib.Unbuildable('race tracer does not link: ' + log[-1500:])
     return exe
 
 
